@@ -357,3 +357,14 @@ class Report:
 def chunks(lst, n):
     for i in range(0, len(lst), n):
         yield lst[i:i + n]
+
+
+def pmap(func, items, procs=None, chunksize=4):
+    """fork-based parallel map (the parent has already imported what the workers need)"""
+    import multiprocessing as mp
+    items = list(items)
+    if len(items) < 8 or (procs or NCPU) <= 1:
+        return [func(x) for x in items]
+    ctx = mp.get_context("fork")
+    with ctx.Pool(procs or min(NCPU, 12)) as pool:
+        return pool.map(func, items, chunksize=chunksize)
